@@ -252,6 +252,9 @@ def _guard_inputs(path, clsname, meth):
                 d[p.arg] = sym_series(B, p.arg)
             elif p.arg == "fh":
                 d[p.arg] = sym_fh(B, "fh_arg", nonempty=True, oos=True)
+            elif p.arg == "X" and any(seg in path for seg in ("/classification/", "/regression/", "/transformations/panel/", "/series_as_features/")):
+                # a well-formed panel: 3-d array (instances, columns, time points)
+                d[p.arg] = B.arr("arg_X", dtype="real", shape=[B.int("arg_X.n_instances", 1), 1, B.int("arg_X.n_timepoints", 1)])      # univariate: accepted by every panel estimator
             else:
                 d[p.arg] = B.opaque(f"arg_{p.arg}")
         return d
